@@ -102,6 +102,9 @@ def iter_view(ex, st: State, v: V, node=None) -> View:
         for w in views[1:]:
             n = z3.If(w.n < n, w.n, n)
         return View(z3.simplify(n), lambda s, i: v_tuple([w.get(s, i) for w in views]))
+    if k == 'py' and v.py[0] == 'specseq':
+        n_, arr_, ety_ = v.py[1], v.py[2], v.py[3]
+        return View(n_, lambda s, i: V(z3.Select(arr_, i), ety_))
     if k == 'py' and v.py[0] == 'dictview':
         d, what = v.py[1], v.py[2]
         n = st.list_len(d)
@@ -238,6 +241,12 @@ def subscript(ex, st: State, obj: V, sl, node) -> V:
                 return obj.items[j]
         i = as_int(idx)
         n = st.list_len(obj)
+        if obj.tail:
+            back = z3.simplify(n - i)
+            if z3.is_int_value(back) and 1 <= back.as_long() <= len(obj.tail):
+                return obj.tail[len(obj.tail) - back.as_long()]
+            if idx.lit is not None and isinstance(idx.lit, int) and -len(obj.tail) <= idx.lit < 0:
+                return obj.tail[idx.lit]
         if st.is_nonneg(i):
             i = z3.simplify(i)
             inb = i < n
@@ -369,6 +378,9 @@ def ref_contains(ex, st, container, item, node):
 # ---------------------------------------------------------------------------
 # strings
 # ---------------------------------------------------------------------------
+FMT_SHAPES: dict[str, list] = {}     # fmt!<key> -> parts (literal str | ('hole', conv, spec))
+
+
 def fstring(ex, st: State, node: ast.JoinedStr) -> V:
     parts: list = []
     holes: list[V] = []
@@ -404,6 +416,7 @@ def fstring(ex, st: State, node: ast.JoinedStr) -> V:
     if len(parts) == 1 and not isinstance(parts[0], str) and parts[0][0].kind == 'str' and not parts[0][2] and parts[0][1] in ('', '!s'):
         return parts[0][0]
     key = hashlib.md5('|'.join(shape).encode()).hexdigest()[:10]
+    FMT_SHAPES[f'fmt!{key}'] = [p if isinstance(p, str) else ('hole', p[1], p[2]) for p in parts]
     f = uf(f'fmt!{key}', *([Val] * len(holes)), I)
     args = [ex.box(st, h) for h in holes]
     atom = f(*args) if holes else VV.ATOMS.atom(''.join(p for p in parts if isinstance(p, str)))
@@ -480,6 +493,10 @@ def list_concat(ex, st: State, l: V, r: V) -> V:
     out = st.new_list_sym(z3.simplify(ln + rn), arr, ety)
     if l.items is not None and r.items is not None:
         out.items = l.items + r.items
+    elif r.items is not None:
+        out.tail = list(r.items)
+    elif r.tail is not None:
+        out.tail = list(r.tail)
     return out
 
 
@@ -495,6 +512,12 @@ def list_extend(ex, st: State, lst: V, other: V):
         lst.items = lst.items + other.items
     else:
         lst.items = None
+        if other.items is not None:
+            lst.tail = list(other.items)
+        elif other.tail is not None:
+            lst.tail = list(other.tail)
+        else:
+            lst.tail = None
 
 
 def dict_update(ex, st: State, d: V, src: V):
@@ -1104,6 +1127,16 @@ def _b_repr(ex, st, args, kw, node):
     return out
 
 
+def _b_reversed(ex, st, args, kw, node):
+    src = args[0]
+    if src.items is not None:
+        return st.new_list(list(reversed(src.items))) if not st.spec else spec_list(ex, st, list(reversed(src.items)))
+    n, arr, ety = seq_parts(ex, st, src)
+    j = z3.Int(fresh_name('j'))
+    rev = z3.Lambda([j], z3.Select(arr, n - 1 - j))
+    return spec_seq(ex, st, n, rev, ety)
+
+
 def _b_divmod(ex, st, args, kw, node):
     q = ex.binop(st, ast.FloorDiv(), args[0], args[1], node)
     r = ex.binop(st, ast.Mod(), args[0], args[1], node)
@@ -1120,7 +1153,7 @@ BUILTINS: dict[str, Callable] = {
     'set': _b_set, 'frozenset': _b_set, 'print': _b_print, 'type': _b_type, 'id': _b_id,
     'any': _b_any_all(False), 'all': _b_any_all(True), 'round': _b_round,
     'hasattr': _b_hasattr, 'getattr': _b_getattr, 'callable': _b_callable, 'open': _b_open,
-    'super': _b_super, 'iter': _b_iter, 'repr': _b_repr, 'divmod': _b_divmod,
+    'super': _b_super, 'iter': _b_iter, 'repr': _b_repr, 'divmod': _b_divmod, 'reversed': _b_reversed,
     'bytes': _b_str, 'object': None,
 }
 
@@ -1331,7 +1364,8 @@ def pyobj_attr(ex, st, obj: V, name: str):
     if p[0] == 'typeof':
         if name == '__name__':
             v = p[1]
-            return V(Val.s(ex.cls_of(as_ref(v))), STR) if False else v_str(v.ty.cls)
+            ci_ = ex.repo.find_class(v.ty.cls)
+            return v_str(ci_.name if ci_ is not None else v.ty.cls.split('.')[-1])
     if p[0] == 'func' and name == '__name__':
         return v_str(p[1].name)
     return None
@@ -1446,6 +1480,10 @@ def list_method(ex, st, lst: V, name, args, kwargs, node):
         st.write(r, '$len', z3.simplify(n + 1))
         if lst.items is not None:
             lst.items = lst.items + [args[0]]
+        elif lst.tail is not None:
+            lst.tail = lst.tail + [args[0]]
+        else:
+            lst.tail = [args[0]]
         if lst.ty.args and lst.ty.args[0].kind == 'any' and args[0].kind != 'any':
             cn = ex.concrete_int(n)
             if cn == 0:
